@@ -47,6 +47,8 @@ def drive_message(ctx, tlc_out, tag, agg, *, every=1, faults=True, validate=True
         raise core.ToolFailure("TLC exported no behaviours (%s)" % tag)
     resp = os.path.join(ctx.work, "res-%s.json" % tag)
     cases = os.path.join(ctx.work, "cases-%s.ndjson" % tag)
+    # the spec-side validation of real encodings costs ~1 ms per case in one TLC process: keep it below ~40k cases
+    every = max(every, -(-n // 40000))
     args = ["message", "-in", beh, "-out", resp, "-table", p_stream.bytes_table(ctx), "-cases", cases, "-every", every]
     if not faults:
         args.append("-faults=false")
